@@ -13,6 +13,7 @@ import (
 	"runtime"
 	"strings"
 	"sync"
+	"sync/atomic"
 	"time"
 
 	"github.com/IrineSistiana/mosdns/v5/pkg/server"
@@ -214,35 +215,78 @@ func (s *netServers) tcpRound(ms []*dns.Msg, meet *Rendezvous, base int) ([]netO
 	if _, err := c.Write(all); err != nil {
 		return out, nil
 	}
-	for i := 0; i < len(ms); i++ {
-		select {
-		case <-meet.Arrived:
-		case <-time.After(waitReply):
-			return nil, errors.New("pipelined queries do not all reach the barrier")
+	// a reader takes frames off the connection from the start, so that a
+	// connection the server closes is noticed at once
+	frames := make(chan []byte, len(ms)+64)
+	var phase2 atomic.Bool
+	go func() {
+		defer close(frames)
+		for {
+			b, err := readFrame(c)
+			if err != nil {
+				return // closed, or (after the release) nothing more / out of step
+			}
+			if phase2.Load() {
+				c.SetReadDeadline(time.Now().Add(2 * time.Second))
+			}
+			frames <- b
 		}
-	}
-	// base + the connection's read loop: the handler goroutines have written and ended
-	if !waitGoroutines(base+1, waitReply) {
-		return nil, errors.New("handlers of a pipelined round do not end")
-	}
-	c.SetReadDeadline(time.Now().Add(waitNone))
-	for got := 0; got < len(ms); {
-		b, err := readFrame(c)
-		if err != nil {
-			return out, nil // nothing more (or the stream is out of step): the rest got no reply
-		}
+	}()
+	place := func(b []byte) {
 		o, err := parseReply(b)
 		if err != nil {
-			continue
+			return // not a DNS message: nobody's reply
 		}
 		for i, m := range ms {
 			if out[i].reply == nil && m.Id == o.reply.Id {
 				out[i] = o
-				got++
-				break
+				return
 			}
 		}
 	}
+	drain := func() {
+		for b := range frames {
+			place(b)
+		}
+	}
+	for i := 0; i < len(ms); i++ {
+		select {
+		case <-meet.Arrived:
+		case b, ok := <-frames:
+			if !ok { // the server closed the connection before all queries were in
+				return out, nil
+			}
+			place(b)
+			i--
+		case <-time.After(waitReply):
+			return nil, errors.New("pipelined queries do not all reach the barrier")
+		}
+	}
+	// base + the connection's read loop + the reader: the handler goroutines have written and ended
+	if !waitGoroutines(base+2, waitReply) {
+		return nil, errors.New("handlers of a pipelined round do not end")
+	}
+	// everything is in the socket already; the deadline only ends a read on a stream that is out of step
+	phase2.Store(true)
+	c.SetReadDeadline(time.Now().Add(2 * time.Second))
+	got := func() int {
+		n := 0
+		for i := range out {
+			if out[i].reply != nil {
+				n++
+			}
+		}
+		return n
+	}
+	for got() < len(ms) {
+		b, ok := <-frames
+		if !ok {
+			break
+		}
+		place(b)
+	}
+	c.Close()
+	drain()
 	return out, nil
 }
 
